@@ -16,40 +16,48 @@ Theorem C13_generated_facts :
 Proof. pose proof gen_cfg_ok as H. unfold cfg_ok in H. rewrite !Bool.andb_true_iff in H. tauto. Qed.
 
 Section Protocol.
-  Context {E X D C R : Type}.
+  Context {E X D C R I K : Type}.
   Variable api : D -> C -> D * R.
   Variable closed_result : C -> R.
+  Variable pre : I -> list (@msg E X).
+  Variable hnd : D -> I -> D * list (@msg E X).
+  Variable env : D -> K -> option D.
+  Notation cstate := (@cstate E X D C R I K).
+  Notation reachable := (reachable api closed_result pre hnd env).
+  Notation crun := (crun api closed_result pre hnd env).
+  Notation cstep := (cstep api closed_result pre hnd env).
+  Notation reader_step := (reader_step pre hnd).
   Let cf := mkCf (send_in_cs gen_program) (guard_first gen_program).
 
   (* once a Close has been acknowledged and no Close is still on its way to the descriptor: descriptor closed, done
      closed, reader past its exit — for any prior history, any racing calls, any capacity *)
-  Theorem C13_released : forall cap d (s : @cstate E X D C R) t,
-    reachable api closed_result cap cf d s -> (forall t', thr s !! t' <> Some KCloseFile) ->
+  Theorem C13_released : forall cap d (s : cstate) t,
+    reachable cap cf d s -> (forall t', thr s !! t' <> Some KCloseFile) ->
     thr s !! t = Some KDone -> resp_closed s = true ->
     file_closed s = true /\ done_closed s = true /\ (rd s = RExit2 \/ rd s = RExit3 \/ rd s = RDead).
-  Proof. exact (fun cap d s t => close_releases api closed_result cap cf d s t). Qed.
+  Proof. exact (fun cap d s t => close_releases api closed_result pre hnd env cap cf d s t). Qed.
 
   (* the goroutine is gone at most two (always enabled) steps later and never runs again *)
-  Theorem C13_reader_gone : forall cap d (s : @cstate E X D C R),
-    reachable api closed_result cap cf d s -> resp_closed s = true ->
-    exists ls s', only_threads ls /\ List.length ls <= 2 /\ crun api closed_result cap cf s ls = Some s' /\
+  Theorem C13_reader_gone : forall cap d (s : cstate),
+    reachable cap cf d s -> resp_closed s = true ->
+    exists ls s', only_threads ls /\ List.length ls <= 2 /\ crun cap cf s ls = Some s' /\
                   rd s' = RDead /\ ev_closed s' = true /\ er_closed s' = true.
-  Proof. exact (fun cap d s => channels_close_after_close api closed_result cap cf d s). Qed.
-  Theorem C13_dead_reader_stays_dead : forall cap (s : @cstate E X D C R), rd s = RDead -> reader_step cap cf s = None.
-  Proof. exact (fun cap s => reader_dead_stuck cap cf s). Qed.
+  Proof. exact (fun cap d s => channels_close_after_close api closed_result pre hnd env cap cf d s). Qed.
+  Theorem C13_dead_reader_stays_dead : forall cap (s : cstate), rd s = RDead -> reader_step cap cf s = None.
+  Proof. exact (fun cap s => reader_dead_stuck pre hnd cap cf s). Qed.
 
   (* the step that closes the descriptor is always enabled for a closer that has closed done *)
-  Theorem C13_descriptor_gets_closed : forall cap (s : @cstate E X D C R) t,
+  Theorem C13_descriptor_gets_closed : forall cap (s : cstate) t,
     t <> reader_tid -> thr s !! t = Some KCloseFile ->
-    exists s', cstep api closed_result cap cf s (LThr t) = Some s' /\ file_closed s' = true.
-  Proof. exact (fun cap s t => closefile_enabled api closed_result cap cf s t). Qed.
+    exists s', cstep cap cf s (LThr t) = Some s' /\ file_closed s' = true.
+  Proof. exact (fun cap s t => closefile_enabled api closed_result pre hnd env cap cf s t). Qed.
 
   (* and from done+descriptor closed the reader always reaches its end, closing all three channels *)
-  Theorem C13_reader_exits : forall cap d (s : @cstate E X D C R),
-    reachable api closed_result cap cf d s -> done_closed s = true -> file_closed s = true ->
-    exists ls s', only_threads ls /\ List.length ls <= reader_measure (rd s) + 1 /\ crun api closed_result cap cf s ls = Some s' /\
+  Theorem C13_reader_exits : forall cap d (s : cstate),
+    reachable cap cf d s -> done_closed s = true -> file_closed s = true ->
+    exists ls s', only_threads ls /\ List.length ls <= reader_measure (rd s) + 1 /\ crun cap cf s ls = Some s' /\
                   rd s' = RDead /\ ev_closed s' = true /\ er_closed s' = true /\ resp_closed s' = true.
-  Proof. exact (fun cap d s => reader_exits_after_close api closed_result cap cf d s gen_send_in_cs_false). Qed.
+  Proof. exact (fun cap d s => reader_exits_after_close api closed_result pre hnd env cap cf d s gen_send_in_cs_false). Qed.
 End Protocol.
 
 Print Assumptions C13_generated_facts.
